@@ -1148,6 +1148,9 @@ class Context:
             except (TimeLimitError, MemoryLimitError):
                 # Limits stop the whole evaluation; they are never turned into script errors
                 raise
+            except RecursionError:
+                # the host's stack ran out under nested evaluations: the engine's limit, not a script error
+                raise MemoryLimitError("Maximum call stack size exceeded") from None
             except Exception as e:
                 from .errors import JSError
 
